@@ -38,6 +38,9 @@ def gen(tier, seed, shard, nshards):
         yield "pdag", c
     for code in _gc.sample_pdag5_codes(("C08", seed), N[tier]["pdag5"], shard, nshards):
         yield "pdag", {"p": 5, "code": code}
+    for k in range(1600 if tier == "quick" else 40000):
+        if k % nshards == shard:
+            yield "sampled-dag", {"masks": _gc.sampled_dag(("C08", seed, "sparse-big", k), 10, 14, max_edges=10)}
     for c in _gc.iter_pdag_cases((3, 4), shard, nshards):
         yield "embedded-pdag", dict(c, P=9 + c["code"] % 5)
     for c in _gc.iter_dag_cases((3, 4, 5), shard, nshards):
